@@ -93,6 +93,24 @@ func c12Gen(seed int64, idx int) c12Case {
 			yang.S("grouping", "fw-inner2", yang.S("leaf", "fb", yang.S("type", "uint8"))))
 		yang.SortSections(m)
 		c12Shuffle(r, m, true)
+	case 6:
+		// groupings that define no node (an extension point with a description only, a grouping without a
+		// body): their uses introduces nothing, whatever follows it — further uses, directly or inside the
+		// next siblings — expands as if it were not there
+		str := func(n string) *yang.Stmt { return yang.S("leaf", n, yang.S("type", "string")) }
+		m.Add(yang.S("grouping", "eg-hooks", yang.S("description", "extension point")),
+			yang.S("grouping", "eg-none"),
+			yang.S("grouping", "eg-endpoint", str("ep"), yang.S("container", "epc", str("port"))),
+			yang.S("grouping", "eg-outer", yang.S("uses", "eg-hooks"), yang.S("container", "gc", yang.S("uses", "eg-endpoint")), str("gl"), yang.S("uses", "eg-none"), yang.S("uses", "eg-endpoint")),
+			yang.S("container", "eg-top", yang.S("uses", "eg-hooks"), yang.S("container", "server", yang.S("uses", "eg-endpoint")), str("name"),
+				yang.S("uses", "eg-none"), yang.S("uses", "eg-endpoint"), str("after")),
+			yang.S("list", "eg-list", yang.S("key", "k"), str("k"), yang.S("uses", "eg-none"), yang.S("uses", "eg-hooks"), yang.S("container", "c", yang.S("uses", "eg-endpoint")), str("z")),
+			yang.S("container", "eg-use2", yang.S("uses", "eg-outer")),
+			yang.S("container", "eg-ch", yang.S("choice", "ch", yang.S("case", "one", yang.S("uses", "eg-hooks"), yang.S("uses", "eg-endpoint"), str("c1")), yang.S("case", "two", yang.S("uses", "eg-none"), str("c2"), str("c3")))))
+		yang.SortSections(m)
+		if (idx/10)%2 == 1 {
+			c12Shuffle(r, m, true)
+		}
 	case 8:
 		if (idx/10)%5 == 4 {
 			// augments whose target is a choice and that add cases in short form (a data node directly under
